@@ -63,12 +63,8 @@ func ZZH_C06_odd_ids() {
 // zz:also C04
 func ZZH_C06_unordered() {
 	which := zz.Choice("unordered", 3) // 0 source, 1 destination, 2 both
-	if which != 1 {
-		zzUnordered["chA:"+zzSrcSvc] = true
-	}
-	if which != 0 {
-		zzUnordered["chB:sB"] = true
-	}
+	zzUnorderedA = which != 1
+	zzUnorderedB = which != 0
 	zz.Tag("C06.F-batch-request-never-times-out", which != 0)
 	zzTimeoutPipeline()
 }
